@@ -944,7 +944,7 @@ func propC13(w *World, r *Report) {
 		}
 	}
 	r.Check(len(ps) >= 1, "G4", "a parse call site exists", "-", fmt.Sprint(len(ps)))
-	checkParsers(w, r)
+	checkParsers(w, r, "B1")
 	checkHandleConnBadFrame(w, r)
 }
 
@@ -1022,6 +1022,24 @@ func propC17(w *World, r *Report) {
 			r.Check(nn > 0, "V2", rn+": limit tested after the write and the increment", "-", fmt.Sprintf("%d contexts", nn))
 		} else {
 			r.Fail("V2", rn+": limit tested after the write and the increment", w.InstrPos(ev.Instr), describeCtx(badc), badc.Trace)
+		}
+		// the file is closed nowhere else: only when the limit is exceeded, or (continuous) on a rejected frame —
+		// never by a camera reset, a motion event or a test-recording request
+		stops := eventsOfKind(run, "sink:StopRecording", a.role)
+		for _, ev := range stops {
+			okc, badc, _, nn := allCtx([]*Event{ev}, func(cx *Ctx) bool {
+				if out, present := cx.Dec[a.label]; present && relationOn(a.label, a.count, out) == ">" {
+					return true
+				}
+				p, has := cx.Dec["parse"]
+				return has && p == 0 && cx.Sinks[a.role] == 1 || cx.Sinks[a.role] == 0
+			})
+			construct := rn + ": StopRecording at " + callOrdinal(ev.Instr, "StopRecording") + " closes an open file only when the limit is exceeded or a frame was rejected"
+			if okc {
+				r.Pass("V2", construct, w.InstrPos(ev.Instr), fmt.Sprintf("%d contexts", nn))
+			} else {
+				r.Fail("V2", construct, w.InstrPos(ev.Instr), "a "+rn+" file is cut short (closed before it holds K+1 frames) by something other than a rejected frame: "+describeCtx(badc), badc.Trace)
+			}
 		}
 		var b1, b2, b3 *Ctx
 		m := 0
